@@ -46,9 +46,13 @@ FLOORS = {'*': {**{f'outcome:{o}:{p}': 10 for o in _OUT for p in ('first', 'midd
                 'source:client': 100, 'source:request': 100, 'source:request-none': 30, 'source:none': 30,
                 'cap-reached': 20, 'jitter:nonzero': 100, 'jitter:fresh-value-per-draw': 100,
                 'jitter:fresh:>=2-pauses-in-one-request': 20, 'entry:send': 300, 'entry:call': 100, 'entry:dunder-call': 100,
-                'entry:proxy': 100, 'entry:notify': 20, 'back-below-the-cap': 20, 'per-request-strategy-lists-nothing': 100, 'session:followup-requests': 100, 'sleeps-observed': 300}}
+                'entry:proxy': 100, 'entry:notify': 20, 'back-below-the-cap': 20, 'per-request-strategy-lists-nothing': 100, 'codes:reserved-range': 100, 'session:followup-requests': 100, 'sleeps-observed': 300}}
 
-CODES = {'none': None, 'empty': set(), 'one': {2001}, 'several': {2001, 2002}}
+CODES = {'none': None, 'empty': set(), 'one': {2001}, 'several': {2001, 2002}, 'reserved': {-32050, -32099}}
+# the code the scripted server answers with for a 'listed' / 'unlisted' outcome; under 'reserved' both lie in the range the
+# specification reserves for implementation-defined server errors and have no error class of their own
+LISTED_CODE = {'reserved': -32050}
+UNLISTED_CODE = {'reserved': -32051}
 EXCS = {'none': None, 'empty': set(), 'one': {ConnectionError}, 'several': {ConnectionError, TimeoutError}}
 
 EVENTS = []
@@ -107,8 +111,9 @@ def make_strategy(spec, codes, excs):
 class Script:
     """transport: one scripted outcome per attempt, response ids copied from the request actually sent"""
 
-    def __init__(self, outcomes):
+    def __init__(self, outcomes, listed=2001, unlisted=999):
         self.outcomes = list(outcomes)
+        self.listed, self.unlisted = listed, unlisted
         self.idx = 0
         self.raised = []
         self.texts = []
@@ -139,21 +144,21 @@ class Script:
         if isinstance(req, list):
             if o == 'ok':
                 return json.dumps([{'jsonrpc': '2.0', 'id': r['id'], 'result': f'ok{k}'} for r in req if 'id' in r])
-            code = 2001 if o == 'listed' else 999
+            code = self.listed if o == 'listed' else self.unlisted
             return json.dumps({'jsonrpc': '2.0', 'id': None, 'error': {'code': code, 'message': 'batch', 'data': k}})
         if o == 'ok':
             return json.dumps({'jsonrpc': '2.0', 'id': req['id'], 'result': f'ok{k}'})
-        code = 2001 if o == 'listed' else 999
+        code = self.listed if o == 'listed' else self.unlisted
         return json.dumps({'jsonrpc': '2.0', 'id': req['id'], 'error': {'code': code, 'message': 'single', 'data': k}})
 
 
-def model_outcomes(script):
+def model_outcomes(script, listed=2001, unlisted=999):
     out = []
     for k, o in enumerate(script):
         if o == 'ok':
             out.append({'kind': 'ok'})
         elif o in ('listed', 'unlisted'):
-            out.append({'kind': 'error-response', 'code': 2001 if o == 'listed' else 999})
+            out.append({'kind': 'error-response', 'code': listed if o == 'listed' else unlisted})
         else:
             cls = {'exc-listed': ConnectionError, 'exc-sub': ConnectionResetError, 'exc-unlisted': KeyError, 'exc-chained': KeyError}[o]
             out.append({'kind': 'exception', 'exc': cls()})
@@ -187,6 +192,8 @@ def run_session(ctx, spec, codes, excs, is_async, requests):
     if fresh_jitter:
         ctx.hit('jitter:fresh-value-per-draw')
     ctx.hit('client:' + ck)
+    if codes == 'reserved':
+        ctx.hit('codes:reserved-range')
     ctx.hit('family:' + spec['family'])
     if spec.get('jitter'):
         ctx.hit('jitter:nonzero')
@@ -206,7 +213,8 @@ def run_session(ctx, spec, codes, excs, is_async, requests):
             continue
         effective = {'client': delays_full, 'request': delays_full, 'request-none': None, 'none': None}[source]
         exc_types = tuple(EXCS[excs] or ())
-        sc = Script(script)
+        listed, unlisted = LISTED_CODE.get(codes, 2001), UNLISTED_CODE.get(codes, 999)
+        sc = Script(script, listed, unlisted)
         transport_box['script'] = sc
         del EVENTS[:]
         kw = {}
@@ -244,7 +252,7 @@ def run_session(ctx, spec, codes, excs, is_async, requests):
                 entry = 'notify'
                 st, out = clientside.outcome_of(lambda: client.notify('n', ridx), is_async)
         observed = list(EVENTS)
-        want_events, final = model.run(effective, CODES[codes], exc_types, model_outcomes(script), kind == 'notification')
+        want_events, final = model.run(effective, CODES[codes], exc_types, model_outcomes(script, listed, unlisted), kind == 'notification')
         consumed = tuple(script[:final + 1])
         for pos, o in enumerate(consumed):
             ctx.hit(f"outcome:{o}:{'first' if pos == 0 else ('last' if pos == len(consumed) - 1 else 'middle')}")
@@ -323,7 +331,7 @@ def run_session(ctx, spec, codes, excs, is_async, requests):
             if want_ok:
                 want = ('ok', [f'ok{final}'] * (2 if kind == 'batch' else 1))
             else:
-                want = ('error', 2001 if last == 'listed' else 999, final)
+                want = ('error', listed if last == 'listed' else unlisted, final)
             if got != want:
                 if got[0] == 'other':
                     ctx.violation(f'last-response-not-returned:{got[1]}', fam, cls, **wit)
@@ -375,7 +383,7 @@ def gen(ctx):
             for _ in range(reps):
                 k += 1
                 spec = grid[(k * 7) % len(grid)]
-                codes = ('one', 'several', 'one', 'none', 'one', 'empty', 'several')[k % 7]
+                codes = ('one', 'several', 'one', 'none', 'one', 'empty', 'several', 'reserved')[k % 8]
                 excs = ('one', 'several', 'one', 'one', 'none', 'several', 'empty')[(k // 3) % 7]
                 kind = kinds[k % 3] if (k % 11) else 'notification'
                 source = ('client', 'request', 'client', 'request', 'request-none', 'client', 'none')[(k // 2) % 7]
